@@ -28,10 +28,17 @@ func runWipe(env *execenv.Env) error {
 	}
 
 	env.Out.Println("cleaning git config ...")
-	err = env.Backend.ClearUserIdentity()
+	userIsSet, err := env.Backend.IsUserIdentitySet()
 	if err != nil {
 		_ = env.Backend.Close()
 		return err
+	}
+	if userIsSet {
+		err = env.Backend.ClearUserIdentity()
+		if err != nil {
+			_ = env.Backend.Close()
+			return err
+		}
 	}
 	// RemoveAll fails if there is nothing to remove, which is the case as soon as the user
 	// identity was the only thing configured
